@@ -385,6 +385,13 @@ def abstract(t, obj):
     k = b[0]
     if not isinstance(obj, pbase.Asn1Item):
         raise NotAValue('not an ASN.1 object: %r' % (obj,))
+    # the object in a slot is an object of the slot's kind (a CHOICE object answers int() and == through its component,
+    # so reading the content alone would not notice one sitting in an INTEGER slot)
+    want = {'bool': univ.Boolean, 'int': univ.Integer, 'enum': univ.Enumerated, 'bits': univ.BitString, 'null': univ.Null,
+            'oid': univ.ObjectIdentifier, 'real': univ.Real, 'any': univ.Any, 'str': univ.OctetString, 'seq': univ.Sequence,
+            'set': univ.Set, 'seqof': univ.SequenceOf, 'setof': univ.SetOf, 'choice': univ.Choice}.get(k)
+    if want is not None and not isinstance(obj, want):
+        raise NotAValue('a %s object in a slot of kind %s' % (type(obj).__name__, k))
     if k in ('seq', 'set'):
         out = []
         for i, (kind, dflt, ft) in enumerate(b[1]):
